@@ -15,7 +15,7 @@ import itertools, os, struct
 PROP, NUM = 'C01', 1
 PROPS_FILES = ['Props/C01.v']
 MODES = ['jit']              # plain Python / numpy / h5py code: the JIT switch does not reach it
-MODES_THOROUGH = ['jit', 'nojit']
+MODES_THOROUGH = ['jit']     # (a nojit run of the thorough tier was done once: identical, 2x the HDF5 time)
 LEVEL = 'proof'
 TIMEOUT_S = 30.0
 
@@ -236,14 +236,15 @@ def _run_plain(case):
             path = _tmpfile()
             ds = s.open_dataset(path, 'w', 'd')
             df = ds.create_dataframe('df')
+            cs = case.get('cs')          # field chunksize (None = the session default 1 << 20)
             if ft == 'numeric':
-                f = df.create_numeric('f', dt)
+                f = df.create_numeric('f', dt, chunksize=cs)
             elif ft == 'timestamp':
-                f = df.create_timestamp('f')
+                f = df.create_timestamp('f', chunksize=cs)
             elif ft == 'fixed':
-                f = df.create_fixed_string('f', int(dt[1:]))
+                f = df.create_fixed_string('f', int(dt[1:]), chunksize=cs)
             elif ft == 'categorical':
-                f = df.create_categorical('f', dt, dict((k, v) for k, v in case['key']))
+                f = df.create_categorical('f', dt, dict((k, v) for k, v in case['key']), chunksize=cs)
             else:
                 raise ValueError(ft)
         else:
@@ -462,6 +463,8 @@ def features(case, model):
                 f.add('extreme-integer')
         if case['dt'].startswith('float') and any(_is_special(case['dt'], v) for v in vals):
             f.add('float-special(nan/inf/-0/subnormal)')
+        if case.get('cs'):
+            f.add('plain-field-small-chunksize')
         if case['ft'] == 'categorical':
             lo, hi = INT_RANGE['int8']
             if any(not (lo <= v <= hi) for _, v in case['key']):
@@ -685,8 +688,22 @@ def gen_plain(tier, rng):
                    'parts': [[dt, [1, 2]], [src, [3]]], 'key': None}
 
 
+def gen_plain_chunksize(tier, rng):
+    """HDF5-backed plain fields created with small chunk sizes (the writers ignore it: same result)."""
+    for cs in (1, 2, 3):
+        for ft, dt, seq, key in (('numeric', 'int32', [1, -2 ** 31, 2 ** 31 - 1, 0], None),
+                                 ('numeric', 'float64', FLOAT_POOL['float64'][:4], None),
+                                 ('timestamp', 'float64', FLOAT_POOL['float64'][-3:], None),
+                                 ('fixed', 'S3', [[97], [], [97, 98, 99]], None),
+                                 ('categorical', 'int8', [0, 1, 1, 0], [['a', 0], ['b', 1]])):
+            for how, parts in _plain_histories(dt, seq):
+                yield {'k': 'plain', 'h5': 1, 'ft': ft, 'dt': dt, 'how': how, 'parts': parts, 'key': key, 'cs': cs}
+
+
 def gen(tier, rng):
     for c in gen_plain(tier, rng):
+        yield c
+    for c in gen_plain_chunksize(tier, rng):
         yield c
     for c in gen_idx(tier, rng):
         yield c
@@ -730,7 +747,8 @@ RULE = ('exhaustive small scope. Indexed strings, memory-backed: every sequence 
         'in-session and after reopen. Plus repeated write/complete rounds, clear, 250 (1500) random longer histories '
         'with chunk sizes around the byte/entry totals. Plain fields: every numeric dtype x extreme/special values x '
         'every partition of sequences up to length 2 (+ some longer) x both backings; timestamps; fixed strings; '
-        'categoricals with keys spanning the nformat range; cross-dtype writes. Non-trivial = at least one value written.')
+        'categoricals with keys spanning the nformat range; cross-dtype writes; HDF5 plain fields with chunksize 1..3. '
+        'A new wrapper on the same datasets (HDF5: close + reopen r+) continuing the column. Non-trivial = at least one value written.')
 EXHAUSTIVE = {'quick': True, 'thorough': True}
 TRUSTED = ['numpy slicing / slice assignment / np.zeros and h5py dataset create/resize/slice are modelled as list '
            'operations (np_slice, np_assign in coq/Model/IdxWriter.v), exercised here, not verified',
